@@ -28,6 +28,10 @@ func genProg(t *rapid.T) Prog {
 	// helpers usable by global initialisers come first
 	if g.chance(60) {
 		g.genFunc("safe")
+		if g.chance(20) {
+			g.pr.Funcs[len(g.pr.Funcs)-1].AsVar = true
+			g.mark("func-literal-var")
+		}
 	}
 	g.genGlobals()
 	g.genInits()
@@ -45,9 +49,17 @@ func genProg(t *rapid.T) Prog {
 	for i := 0; i < ne; i++ {
 		g.genFunc("exported")
 	}
+	for fi, n := 0, len(g.funcs); fi < n; fi++ {
+		if f := g.funcs[fi]; f.exported && f.hasDefer && g.chance(60) {
+			g.observer(fi)
+		}
+	}
 	g.genCalls()
 	if g.tickV != nil {
 		g.pr.Funcs = append(g.pr.Funcs, tickFunc())
+	}
+	if g.markFn {
+		g.pr.Funcs = append(g.pr.Funcs, markFunc())
 	}
 	if g.chance(3) {
 		// An exported function with type-only or blank parameters is valid Go; the compiler documents that it refuses
@@ -115,11 +127,16 @@ func (g *gen) genGlobals() {
 			typs = append(typs, "*T0", "T1")
 		}
 		typ := typs[g.n(len(typs), "gt")]
+		if g.chance(15) {
+			ats := g.arrTypes()
+			typ = ats[g.n(len(ats), "gat")]
+			g.mark("global-array")
+		}
 		name := fmt.Sprintf("g%d", i)
 		v := &vinfo{name: name, typ: typ, global: true}
 		var init *Node
 		deps := map[string]bool{}
-		zero := g.chance(25) && (typ == "int" || typ == "bool" || typ == "string" || typ == "T1")
+		zero := g.chance(25) && (typ == "int" || typ == "bool" || typ == "string" || typ == "T1") || isArray(typ) && g.chance(50)
 		e := ex{ascii: true, short: true}
 		if !zero {
 			var ok bool
@@ -133,9 +150,18 @@ func (g *gen) genGlobals() {
 			init = e.n
 			collectVars(init, deps)
 		}
+		g.selStyle(v)
+		if isArray(typ) {
+			v.minLen, _ = arrSplit(typ)
+		}
 		switch typ {
 		case "int":
 			v.wide, v.lo, v.hi = true, -wideB, wideB
+			if !zero && g.chance(25) {
+				// a package variable that nothing assigns (what a constant table or a configuration value is)
+				v.wide, v.ro, v.lo, v.hi = false, true, e.lo, e.hi
+				g.mark("global-readonly")
+			}
 		case "string":
 			v.ascii, v.growing, v.minLen = e.ascii, !e.short, 0
 			switch {
@@ -151,6 +177,9 @@ func (g *gen) genGlobals() {
 		case "map[int]int", "map[string]int":
 			if init != nil && init.K == "mlit" {
 				for j := 0; j+1 < len(init.A); j += 2 {
+					if init.A[j].K != "lit" {
+						continue
+					}
 					if typ == "map[int]int" {
 						v.sureI = append(v.sureI, init.A[j].N)
 					} else {
@@ -236,7 +265,21 @@ func (g *gen) genInits() {
 	for i := 0; i < k; i++ {
 		g.f = &fctx{sig: &fsig{safe: true}, noPanic: true, inInit: true, budget: 150, mult: 1}
 		g.push()
-		body, _ := g.genStmts(4)
+		var body []*Node
+		if g.chance(30) {
+			// an early return guard: the rest of this init() is skipped, the other init() functions still run
+			c := g.genBool(2)
+			if c.konst {
+				c = g.genBool(0)
+			}
+			if !c.konst {
+				st, _ := g.genStmts(2)
+				body = append(st, &Node{K: "if", A: []*Node{none(), c.n}, B: []*Node{blk([]*Node{{K: "return"}}), none()}})
+				g.mark("init-return")
+			}
+		}
+		st, _ := g.genStmts(4)
+		body = append(body, st...)
 		g.pop()
 		g.pr.Inits = append(g.pr.Inits, body)
 	}
@@ -316,7 +359,7 @@ func (g *gen) genFunc(kind string) {
 		if nr == 0 {
 			f.pure = false // a pure function without results would be useless
 		}
-		if !f.pure && g.chance(45) {
+		if !f.pure && g.chance(55) {
 			f.hasDefer = true
 			f.recovers = g.chance(65)
 		}
@@ -336,6 +379,7 @@ func (g *gen) genFunc(kind string) {
 		f.budget = 700
 	}
 	sig.pure = f.pure
+	sig.hasDefer = f.hasDefer
 	sig.recovers = f.recovers
 	sig.mayRecover = f.recovers
 	if f.recovers && !g.on(kRecoverHard) {
@@ -480,11 +524,33 @@ func (g *gen) genFunc(kind string) {
 			g.mark("path-trace")
 		}
 	}
-	if f.hasDefer && g.chance(70) {
+	// several defers up front: what the function leaves behind depends on every one of them being run, once, in
+	// the reverse order, whichever of them recovers
+	nd := 0
+	if f.hasDefer {
+		nd = g.weighted([]int{25, 35, 28, 12}, "ndef")
+	}
+	for i := 0; i < nd && i < 2; i++ {
 		body = append(body, g.stDefer())
 	}
 	if kind == "exported" || kind == "helper" {
 		body = append(body, g.prelude()...)
+	}
+	if nd > 2 {
+		body = append(body, g.stDefer())
+	}
+	if f.hasDefer && g.softStmtOK() && g.chance(45) {
+		// a guard that panics with all the defers above registered
+		c := g.genBool(2)
+		if c.konst {
+			c = g.genBool(0)
+		}
+		if !c.konst {
+			g.noteExpr(c)
+			g.account(2)
+			body = append(body, &Node{K: "if", A: []*Node{none(), c.n}, B: []*Node{blk([]*Node{g.stPanic()}), none()}})
+			g.mark("panic-guard")
+		}
 	}
 	if named && g.chance(30) && g.on(kNamedRedecl) {
 		// `r0, v := e1, e2` at the top level of the body: parameters, results and the body share one scope, so this
@@ -564,6 +630,21 @@ func (g *gen) prelude() []*Node {
 	typs := []string{"[]int", "map[int]int", "map[string]int"}
 	if len(g.pr.Structs) > 0 {
 		typs = append(typs, "*T0", "T1", "*T1")
+	}
+	if g.chance(35) {
+		ats := g.arrTypes()
+		typ := ats[g.n(len(ats), "pat")]
+		name := g.newName(false)
+		if g.chance(50) {
+			out = append(out, &Node{K: "vardecl", S: name, T: typ})
+			g.mark("array-zero-var")
+			g.declare(name, typ, ex{})
+		} else {
+			e := g.arrLit(typ, 1)
+			g.noteExpr(e)
+			out = append(out, &Node{K: "define", S: name, A: []*Node{e.n}})
+			g.declare(name, typ, e)
+		}
 	}
 	for _, typ := range typs {
 		if !g.chance(30) {
